@@ -178,7 +178,8 @@ def has_array_of_struct(prog):
 
 
 SRC_KIND = {"src-nested": "nested", "src-after-return": "after-return", "src-undef": "undef", "src-builtin-name": "builtin-name",
-            "src-cycle": "cycle", "src-self": "cycle", "src-wf": "nested", "src-dup": "dup"}
+            "src-cycle": "cycle", "src-self": "cycle", "src-wf": "nested", "src-dup": "dup", "src-spelling": "spelling",
+            "src-unicode": "unicode-name"}
 
 
 def direct_oracle(prog, obs, cls=""):
@@ -453,7 +454,7 @@ def audit(cases):
     return dict(sorted(acc.items()))
 
 
-REQUIRED = (["stream:src-nested", "stream:src-after-return", "stream:src-undef", "stream:src-builtin-name", "stream:src-dup", "class:src-wf->OLaid", "class:src-self->ODiag", "class:src-cycle->ODiag", "outcome:OLaid", "outcome:ODiag:selfref", "outcome:ODiag:cycle", "outcome:OUnresolved", "outcome:OTooLarge",
+REQUIRED = (["stream:src-spelling", "stream:src-unicode", "stream:src-nested", "stream:src-after-return", "stream:src-undef", "stream:src-builtin-name", "stream:src-dup", "class:src-wf->OLaid", "class:src-self->ODiag", "class:src-cycle->ODiag", "outcome:OLaid", "outcome:ODiag:selfref", "outcome:ODiag:cycle", "outcome:OUnresolved", "outcome:OTooLarge",
              "outcome:ONeedsContext", "outcome:OSizeAlign", "type:ptr", "type:slice", "type:struct-by-value", "type:array",
              "array-of-struct", "ptr-to-struct", "array-len:0", "array-len:1", "array-len:2-16", "array-len:17-300",
              "array-len:>=2^29", "array-depth:2", "array-depth:3", "nesting-depth:2", "nesting-depth:3", "nesting-depth:4",
@@ -541,6 +542,13 @@ def run(ctx):
     except Exception:
         fr = {}
     open(needles, "w").write("".join(f"{k}\t{v}\n" for k, v in fr.items()))
+    # every scalar type spelling of the front end's three tables, with what the spelling means
+    spell_file = os.path.join(vlib.CACHE, "c18-spellings-%d.txt" % os.getpid())
+    try:
+        sp_tab = ex.spelling_tables()
+    except Exception as e:
+        sp_tab = {"rows": {}, "inconsistencies": [], "parsed": {}, "error": str(e)}
+    open(spell_file, "w").write("".join(f"{k}\t{v['expected']}\n" for k, v in sp_tab["rows"].items() if v.get("expected")))
 
     # ---- 1. run the real code first (both profiles); the executed primitive table feeds the translator
     runs = {}
@@ -560,6 +568,8 @@ def run(ctx):
         for k, sd in enumerate(seeds):
             big = thorough and k == 4
             cmd = [paths["hx_layout"], "--seed", str(sd), "--cases", str(n_cases // 4 if big else n_cases), "--needles", needles]
+            if k == 0:
+                cmd += ["--spellings", spell_file]
             if prof == "dev" and k == 0:
                 cmd.append("--api-probe")
             if k > 0 or replay_prog:
@@ -607,6 +617,10 @@ def run(ctx):
         ctx.notes.append("translator: " + n)
     ctx.cov["translator"] = {"phase_order": side.get("phase_order"), "message_fragments": side.get("fragments"),
                              "executed_table_crosschecked": len(executed) == 17}
+    ctx.cov["translator"]["type_spellings"] = {k: v.get("expected") for k, v in sp_tab.get("rows", {}).items()}
+    ctx.cov["translator"]["spelling_tables_parsed"] = sp_tab.get("parsed")
+    for inc in sp_tab.get("inconsistencies", []):
+        ctx.broken.append("translator: type spelling tables of sema disagree: " + inc)
     if side.get("phase_order") and side["phase_order"] != EXPECTED_PHASES:
         ctx.broken.append(f"translator: try_compute_layouts runs its phases in the order {side['phase_order']}, the model assumes {EXPECTED_PHASES}")
     ok, out = vlib.coq_make(["Base/CaseCheck.vo", "Model/LayoutObs.vo"])
@@ -773,7 +787,7 @@ def run(ctx):
             ctx.cov["clang_classes"] = {c: sum(1 for _, e in cl_set if e["cls"] == c) for c in sorted(set(e["cls"] for _, e in cl_set))}
             ctx.cov["clang"] = vlib.sh(["clang", "--version"])[1].split("\n")[0]
     shutil.rmtree(wd, ignore_errors=True)
-    for f in (needles,):
+    for f in (needles, spell_file):
         try:
             os.remove(f)
         except OSError:
